@@ -518,6 +518,9 @@ package lua
 //@ requires ls != nil && th != nil && ls.G != nil && th.G == ls.G && ls.G.CurrentThread == ls && Inv_api(ls) && (ls.currentFrame != nil ==> ls.currentFrame.Fn != nil)
 //@ requires Inv_api(th) && frameOK(th) && th.stack != nil && $inv(th.stack) && $sp(th.stack) < $cap(th.stack) && offset(args) == 0 && arrid(args) != arrid(th.reg.array) && arrid(args) != arrid(ls.reg.array)
 //@ requires th != ls ==> th.reg != ls.reg && arrid(th.reg.array) != arrid(ls.reg.array) && th.currentFrame != ls.currentFrame
+// the body frame of a thread made by NewThread is pushed onto an EMPTY call stack only (a coroutine made by coroutine.create
+// that has not started yet already carries its body frame)
+//@ assert@"th.stack.Push(callFrame{" $sp(th.stack) == 0
 //@ assert@"th.Parent = ls" !th.Dead && ls.G.CurrentThread != th && !ancestor(ls.G.CurrentThread, th) && th != ls
 //@ cut@"cf := th.stack.Last()" the FIRST resume of a coroutine (frame set-up through initCallFrame) is not verified here; its pieces are (Push, initCallFrame)
 //@ let@"th.finishYield(len(args))" tt0 = old(top(th))
